@@ -439,6 +439,10 @@ impl Oracle {
             }
             return;
         }
+        // closing with nothing pending (every addition of the step cancelled again, or nothing requested) creates no variant
+        if self.prev_variant.is_some() && self.pending_add.is_empty() && self.pending_rm.is_empty() {
+            self.hit("C12", "close with no pending change created a new variant".into());
+        }
         // C12 membership
         let mut expect: BTreeSet<usize> = self.prev_variant.clone().unwrap_or_default().into_iter().collect();
         for r in &self.pending_rm {
